@@ -97,9 +97,9 @@ def merge_vals(rets):
     raise Unsupported(f'cannot merge {[type(v).__name__ for v in vals]}')
 
 
-def eval_merged(I, thunk):
+def eval_merged(I, thunk, assume=()):
     """Evaluate thunk() on every path under the current pc and merge the results."""
-    base_len = len(I.ex.ctx.pc)
+    base_len = len(I.ex.ctx.pc) + len(assume)
     from .interp import PyRaise
 
     def wrapped():
@@ -107,7 +107,7 @@ def eval_merged(I, thunk):
             return ('return', thunk(), None)
         except PyRaise as pr:
             return ('raise', pr.exc, None)
-    res = I.ex.explore_nested(wrapped)
+    res = I.ex.explore_nested(wrapped, assume)
     return merge(I, res, base_len)
 
 
@@ -244,31 +244,33 @@ def norm_index(I, idx, n, exc=IndexError):
 
 
 def slice_indices(I, sl, n):
-    """(start, stop, step) z3 Ints per slice.indices(n); raises ValueError on step 0."""
-    def as_int(v):
+    """(start, stop, step) z3 Ints per slice.indices(n); raises ValueError on step 0.
+    Components may be None, ints, or symbolic None-or-int values (no path split for those)."""
+    def comp(v):
+        """-> (is_none Bool, int term)"""
         if isinstance(v, VNone):
-            return None
+            return z3.BoolVal(True), z3.IntVal(0)
         if isinstance(v, VInt):
-            return v.t
+            return z3.BoolVal(False), v.t
+        if isinstance(v, VBool):
+            return z3.BoolVal(False), z3.If(v.t, 1, 0)
         if isinstance(v, VAny):
-            return int_of(v.t)
+            return PyVal.is_PNone(v.t), int_of(v.t)
         raise Unsupported('slice component')
-    step = as_int(sl.step)
-    if step is None:
-        step = z3.IntVal(1)
+    sn, sv = comp(sl.step)
+    step = z3.If(sn, z3.IntVal(1), sv)
     if I.ex.choose(step == 0):
         I.raise_(ValueError)
-    start, stop = as_int(sl.start), as_int(sl.stop)
     pos = step > 0
     lower = z3.If(pos, z3.IntVal(0), z3.IntVal(-1))
     upper = z3.If(pos, n, n - 1)
 
-    def adj(x, default):
-        if x is None:
-            return default
-        return z3.If(x < 0, z3.If(x + n < lower, lower, x + n), z3.If(x > upper, upper, x))
-    s = adj(start, z3.If(pos, lower, upper))
-    e = adj(stop, z3.If(pos, upper, lower))
+    def adj(v, default):
+        isn, x = comp(v)
+        clamped = z3.If(x < 0, z3.If(x + n < lower, lower, x + n), z3.If(x > upper, upper, x))
+        return z3.If(isn, default, clamped)
+    s = adj(sl.start, z3.If(pos, lower, upper))
+    e = adj(sl.stop, z3.If(pos, upper, lower))
     return s, e, step
 
 
@@ -416,7 +418,8 @@ def comprehension(I, node, env, kind):
     def elem(i):
         key = i.get_id()
         if key not in cache_e:
-            cache_e[key] = (i, eval_merged(I, lambda: I.eval(node.elt, bind(i))))
+            rng = [z3.And(i >= 0, i < src.src_len)]      # elements exist only inside the source range
+            cache_e[key] = (i, eval_merged(I, lambda: I.eval(node.elt, bind(i)), assume=rng))
         return cache_e[key][1]
 
     pred = None
@@ -432,7 +435,7 @@ def comprehension(I, node, env, kind):
                             if not I.choose_truthy(I.eval(c, e2)):
                                 return VBool(False)
                         return VBool(True)
-                    conds.append(eval_merged(I, th).t)
+                    conds.append(eval_merged(I, th, assume=[z3.And(i >= 0, i < src.src_len)]).t)
                 cache_p[key] = (i, z3.And(*conds) if len(conds) > 1 else conds[0])
             return cache_p[key][1]
     return VSeq(src.src_len, elem, pred, kind)
